@@ -556,6 +556,8 @@ pub fn sites(tier: Tier) -> Vec<Site> {
         ));
     }
 
+    // (the text-bearing fields found by the text-storm block, shared with the token-sequence site behind it)
+    let text_targets: Arc<Vec<(String, bool, Vec<u8>, usize, usize)>>;
     // 3d. text storms: every text-bearing field (fixed and variable, the latter at its maximum length) filled
     // with {nothing, a, ab, one high byte} + one unit repeated to the end of the field - "any number" of
     // markers, resets, lone carets, double-byte characters with caret-like or lead-like trail bytes
@@ -605,6 +607,7 @@ pub fn sites(tier: Tier) -> Vec<Site> {
         let per = (units.len() * prefixes.len()) as u64;
         let total = targets.len() as u64 * per;
         let targets = Arc::new(targets);
+        text_targets = targets.clone();
         sites.push(Site::new(
             "text-storm",
             total,
@@ -623,6 +626,49 @@ pub fn sites(tier: Tier) -> Vec<Site> {
                 buf[*start..*start + *len].copy_from_slice(&fill);
                 buf.extend_from_slice(if *compressed { &SENTINEL_C } else { &SENTINEL_U });
                 let replay = || json!({"site": "text-storm", "index": i, "field": name, "input": hex(&buf[..buf.len().min(96)])});
+                judge_lazy(*compressed, &buf, i, &replay, acc, false);
+            },
+        ));
+    }
+
+    // 3d'. sequences of code-page TOKENS in every text field: all sequences of up to 3 (thorough: 4) tokens over 18
+    // markers and bytes, at the start of the field (NULs behind) and at its very end (filler in front)
+    {
+        let tokens: Vec<Vec<u8>> = vec![
+            b"^L".to_vec(), b"^J".to_vec(), b"^H".to_vec(), b"^S".to_vec(), b"^K".to_vec(), b"^E".to_vec(), b"^C".to_vec(), b"^G".to_vec(), b"^8".to_vec(), b"^".to_vec(),
+            vec![0x83], vec![0xe9], vec![0xa1], vec![0xf8], vec![0xff], b"A".to_vec(), b"8".to_vec(), b"J".to_vec(),
+        ];
+        let maxlen: u32 = 4;
+        let thorough_tokens = tier == Tier::Thorough;
+        let k = tokens.len() as u64;
+        let mut starts = vec![];
+        let mut count = 0u64;
+        for l in 1..=maxlen { starts.push(count); count += k.pow(l); }
+        // (the oversize frames of the storm site stay there: tokens need no 1020-byte frame)
+        let targets: Arc<Vec<(String, bool, Vec<u8>, usize, usize)>> = Arc::new(text_targets.iter().filter(|t| !t.0.contains("oversize")).cloned().collect());
+        let per = count * 2;
+        sites.push(Site::new(
+            "text-token-sequences",
+            targets.len() as u64 * per,
+            &format!("every text-bearing field of every kind (both modes) x all sequences of 1..={maxlen} tokens (quick: 4-token sequences in six fields, up to 3 tokens in all) over {{10 markers incl. ^8 and a lone caret, 5 high bytes, A, 8, J}} x {{at the start of the field with NULs behind, at the very end with filler in front}}, followed by a sentinel TINY"),
+            move |i, acc| {
+                let (name, compressed, frame, start, len) = &targets[(i / per) as usize];
+                let r = i % per;
+                let at_end = r % 2 == 1;
+                let q = r / 2;
+                let l = starts.iter().rposition(|s| *s <= q).unwrap();
+                // (quick tier: the longest sequences in six fields only - one in eight would do as well, the scan is shared)
+                if l as u32 + 1 == maxlen && !thorough_tokens && (i / per) >= 6 { return; }
+                let mut j = q - starts[l];
+                let mut text = vec![];
+                for _ in 0..=l { text.extend_from_slice(&tokens[(j % k) as usize]); j /= k; }
+                if text.len() > *len { return; }
+                let mut fill = vec![if at_end { b'a' } else { 0u8 }; *len];
+                if at_end { let at = *len - text.len(); fill[at..].copy_from_slice(&text); } else { fill[..text.len()].copy_from_slice(&text); }
+                let mut buf = frame.clone();
+                buf[*start..*start + *len].copy_from_slice(&fill);
+                buf.extend_from_slice(if *compressed { &SENTINEL_C } else { &SENTINEL_U });
+                let replay = || json!({"site": "text-token-sequences", "index": i, "field": name, "input": hex(&buf[..buf.len().min(96)])});
                 judge_lazy(*compressed, &buf, i, &replay, acc, false);
             },
         ));
